@@ -203,3 +203,31 @@ def _sum_between(c):
 Lemma(['C10', 'C12', 'C05'], 'sum_between', _sum_between,
       doc='a sum of terms that all lie in [L, H] lies in [(hi-lo) L, (hi-lo) H] (induction): justifies the bounding steps '
           '(Ctx.sum_between) used in hint chains')
+
+
+def _sum_scaling(c):
+    I, R = z3.IntSort(), z3.RealSort()
+    f = z3.Function('f', I, R)
+    s = z3.Real('s')
+    a, m = z3.Ints('a m')
+    F = lambda lo, hi: c.Sum(lo, hi, lambda k: f(k))
+    G = lambda lo, hi: c.Sum(lo, hi, lambda k: s * f(k))
+    return [('base', [], G(a, a) == s * F(a, a)), ('step', [a <= m, G(a, m) == s * F(a, m)], G(a, m + 1) == s * F(a, m + 1))]
+
+
+Lemma(['C12', 'C10', 'C05'], 'sum_scaling', _sum_scaling, doc='a constant factor moves out of a sum (induction): justifies Ctx.sum_scale')
+
+
+def _sum_dominates(c):
+    I, R = z3.IntSort(), z3.RealSort()
+    f = z3.Function('f', I, R)
+    a, m, k, q = z3.Ints('a m k q')
+    F = lambda lo, hi: c.Sum(lo, hi, lambda j: f(j))
+    pos = lambda lo, hi: z3.ForAll([q], z3.Implies(z3.And(lo <= q, q < hi), f(q) >= 0))
+    return [('nonneg.base', [], F(a, a) >= 0), ('nonneg.step', [a <= m, pos(a, m + 1), z3.Implies(pos(a, m), F(a, m) >= 0)], F(a, m + 1) >= 0),
+            ('dominates.base', [a <= k, pos(a, k + 1), F(a, k) >= 0], F(a, k + 1) >= f(k)),
+            ('dominates.step', [a <= k, k < m, pos(a, m + 1), z3.Implies(pos(a, m), F(a, m) >= f(k))], F(a, m + 1) >= f(k))]
+
+
+Lemma(['C12', 'C10', 'C05'], 'sum_dominates', _sum_dominates,
+      doc='a sum of non-negative terms is non-negative and at least each of its terms (induction): justifies Ctx.sum_dominates')
